@@ -424,29 +424,30 @@ def dec8 (cdna3 : Bool) (i : Inst) (row : Row) (lo hi : Nat) : Option Outcome :=
 /-- `Decode` on the first dword `w0` and, when the buffer has at least 8 bytes, the second
     dword `w1?`. Sizes: every 8-byte format reports 8; a 4-byte format reports 4, or 8 when it
     consumed one trailing dword (literal, SDWA or K constant). A format with no decoder for a
-    table row would `log.Panicf` (`notImpl`). -/
+    table row would `log.Panicf` (`notImpl`). `decodeRow`: decoding once format and row are known. -/
+def decodeRow (cdna3 : Bool) (f : Format) (row : Row) (w0 : Nat) (w1? : Option Nat) : Outcome :=
+  let i : Inst := { name := row.name, ft := f.ft, opcode := row.opcode }
+  if f.size == 8 then
+    match w1? with
+    | none => .err
+    | some w1 => ((dec8 cdna3 i row w0 w1).getD .notImpl).setSize 8
+  else
+    match dec4 i row w0 with
+    | none => .notImpl
+    | some (.done i) => .ok { i with size := 4 }
+    | some .err => .err
+    | some (.more k) =>
+      match w1? with
+      | none => .err
+      | some w1 => (k w1).setSize 8
+
 def decodeCore (look : Nat → Nat → Option Row) (cdna3 : Bool) (w0 : Nat) (w1? : Option Nat) : Outcome :=
   match matchFormat w0 with
   | none => .err
   | some f =>
-    let op := extractBits w0 f.opLo f.opHi
-    match look f.ft op with
+    match look f.ft (extractBits w0 f.opLo f.opHi) with
     | none => .err
-    | some row =>
-      let i : Inst := { name := row.name, ft := f.ft, opcode := row.opcode }
-      if f.size == 8 then
-        match w1? with
-        | none => .err
-        | some w1 => ((dec8 cdna3 i row w0 w1).getD .notImpl).setSize 8
-      else
-        match dec4 i row w0 with
-        | none => .notImpl
-        | some (.done i) => .ok { i with size := 4 }
-        | some .err => .err
-        | some (.more k) =>
-          match w1? with
-          | none => .err
-          | some w1 => (k w1).setSize 8
+    | some row => decodeRow cdna3 f row w0 w1?
 
 def le32 (b : List Nat) (off : Nat) : Nat :=
   b.getD off 0 + b.getD (off + 1) 0 * 256 + b.getD (off + 2) 0 * 65536 + b.getD (off + 3) 0 * 16777216
